@@ -20,6 +20,15 @@ SI, a lattice parameter is then 4e-10): cell vectors, origin, positions and far-
 (k = -12..6, metres favoured; 2^k in wrap_exact so that the arithmetic stays exact), exactly 1 in about half of the cases;
 see "overall length scale" below.  All tolerances are relative to the size of the cell.
 
+Generator classes carried over from the other properties (cross-pollination round): what happens AFTER the judged call (result
+ledger: everything handed out is re-judged bit for bit after later calls on other objects and on the same one, repetitions give the
+first answer; caller side: the caller overwrites what it was handed out and what it handed in, re-defines cell and positions through
+the setters, uses the objects again), cell vectors / origin handed over as float32 / float16 / integer arrays (exactly representable
+values) and 0/1 periodicity as int8 / uint8, near-threshold values (coordinates 1e-12 .. 1e-3 from a face, tilts / rotations / length
+differences 1e-12 .. 1e-3 from the orthogonal / LAMMPS / tetragonal special case; the documented 1e-9 floor of Box.vects is modelled),
+rows spanning 8+ decades in one call (every row judged against its own size and against the row wrapped alone), and two ENUMERATED
+clauses over every ordered combination of earlier call / change in between / earlier call / options of the judged call.
+
 Oracles are numpy only (own solve for relative coordinates, own lattice parameters, pbt.oracles.nearest_image for the
 true nearest-image distances); nothing here calls Box.inside, Box.a/alpha/..., dvect or dmag.
 """
@@ -60,7 +69,20 @@ RULE = ("cells in LAMMPS triangular form (lengths 0.5-50, tilts up to 1.5 length
         "LENGTH SCALE: the whole geometric input of a case (cell vectors, origin, positions incl. far-atom offsets, the other "
         "system wrapped in a history) is multiplied by 10^k, k in {-12,-10 (favoured: metres),-9,-8,-5,-3,-1,1,3,6}, in wrap_exact "
         "by 2^k, k in {-40,-33 (favoured),-30,-27,-17,-10,-3,3,10,20}; exactly 1 in about half of the cases; integer-typed "
-        "(whole-number) positions get the reciprocal scale when it is below 1")
+        "(whole-number) positions get the reciprocal scale when it is below 1.  "
+        "AFTER the judged call (half of the cases, 1-3 operations): a wrap / normalize of another system (other or the same number of atoms), "
+        "the judged call repeated on the same input, the caller overwriting in place what it was handed out (image flags, transform, the "
+        "normalised system and its periodicity, arrays from the getters) and the arrays it had handed to Box (and to Atoms when built with "
+        "safecopy=True; also right after construction in 1 case of 8), cell / positions re-set through their setters and the object used again; "
+        "every array handed out is compared with its value at return time, bit for bit, at the end.  STORAGE: cell vectors and origin also as "
+        "float32 / float16 / integer arrays (the cell of the case is the rounded one), periodicity also as int8 / uint8 arrays.  NEAR-THRESHOLD "
+        "(1 case in 6 each): relative coordinates k +- m*10^-e, e = 3..12 (k +- 2^-e, e = 10..30 in wrap_exact); cells with tilts "
+        "+-10^e lengths, e = -12..-3, rigid rotations by 10^e degrees, e = -10..-1, cell lengths differing by 10^e relative.  DECADES (1 case in 8): "
+        "every row of the positions has its own magnitude 10^k, k = -9..5, the first two 8 or more decades apart.  Clauses wrap_enum / normalize_enum "
+        "enumerate: periodicity at construction x changed or not (in place; also by setter in the thorough tier) x [earlier call: none, wrap with / "
+        "without flags, normalize method / function with transform, wrap of another system] before and after [nothing / an atom moved in place / the "
+        "cell shifted] x the options of the judged call (return_imageflags; method / style keyword / positional / function x return_transform), "
+        "each followed by a repetition")
 ASSUMPTIONS = ["numpy linear algebra (solve, inv, det) is correct",
                "pbt.oracles.nearest_image (exhaustive search with proven radius) gives the true nearest-image distance",
                "normalize is judged only on cells with cond(vects) <= 1e3 (its hard-coded orthonormality asserts and "
@@ -77,6 +99,14 @@ ASSUMPTIONS = ["numpy linear algebra (solve, inv, det) is correct",
                "in place): not generated",
                "normalize as an earlier operation in a history is only called inside the domain the property states "
                "(fully periodic, cond <= 1e3)",
+               "Atoms (default safecopy=False) may keep the arrays it is given (documented: 'may result in the Atoms' property pointing to the "
+               "original numpy array'): the caller's position / type / property arrays count as its own only for systems built with safecopy=True; "
+               "Box copies vects / origin into its own storage",
+               "the floor of Box.vects also acts on the cell normalize rebuilds: a tilt of the rebuilt LAMMPS form below 1e-9 of its largest "
+               "component may be zeroed; lengths, angles, the transform and the pair distances are allowed to differ by what that explains "
+               "(floor_loss: zero unless the cell is next to that threshold)",
+               "a repetition of a call on bit-identical input (a deep copy taken before a wrap; the untouched argument of normalize) gives a "
+               "bit-identical result (deterministic floating-point arithmetic in one process)",
                "System.wrap's padding of a non-periodic direction (0.001) is in relative coordinates, i.e. relative to the cell: "
                "nothing is asserted about its size, only that the old cell and every atom are inside the new one"]
 LEVEL_TEXT = ("Random exploration of System.wrap over right/left-handed, rotated and strongly tilted cells with every "
@@ -86,9 +116,12 @@ LEVEL_TEXT = ("Random exploration of System.wrap over right/left-handed, rotated
               "history on the same object / in the same process (periodicity changed by setter, element-wise in place or through "
               "an aliased array; cell and position edits; rebuilds, copies, reloads; reads; earlier wraps) and over the documented "
               "input forms (lists, tuples, integer-typed in every integer-like dtype incl. unsigned and bool, non-contiguous, read-only cell, scale=True); "
+              "what the caller does AFTER the call (later calls on other / the same object, repetitions, in-place overwriting of everything handed out and handed in: results kept in a ledger and re-judged bit for bit); "
+              "cell given as float32 / float16 / integer arrays; coordinates 1e-12..1e-3 from a face and cells 1e-12..1e-3 from the orthogonal / LAMMPS-form / equal-length special cases; rows spanning 8+ decades judged row by row; "
+              "every ordered combination of earlier call, change in between, earlier call and call options enumerated; "
               "every clause in length units from 1e-12 to 1e+6 (cells in metres, nm, Bohr, ...; powers of two in the exact clause), tolerances relative to the cell.")
 TECHNIQUE = ("independent relative-coordinate solve with derived bands, exact dyadic arithmetic on faces, "
-             "exhaustive nearest-image search for pair distances, deep snapshot comparison")
+             "exhaustive nearest-image search for pair distances, deep snapshot comparison, result ledger, enumerated option combinations")
 WALL = {'quick': 60, 'thorough': 600}
 
 EPS = 2.220446049250313e-16
@@ -153,6 +186,10 @@ def atypes(n):
 # (mins/maxs are "box dimensions relative to box vectors, i.e 0 to 1"): a relative margin, nothing asserted about its size;
 # normalize's asserts act on the dimensionless transformation matrix.  Nothing on this path is an absolute length.
 # All tolerances below are relative to the size of the cell (vmax, omax, xmax carry L; inside_band is dimensionless).
+# NOT carried over: switching atomman.unitconvert.reset_units(...) between calls.  Nothing on the path of wrap / normalize / box_set
+# converts a unit, has a default or tolerance in working units or caches anything derived from one (uc appears in Box / Atoms / System
+# only in model(), whose round trip in a history is re-read before the judged call): the part of that class that applies is the
+# physical system re-expressed in another length unit, which is the length scale above (metres = the SI configuration).
 
 def case_scale(case):
     return float(case['cell'].get('scale', 1.0))
@@ -238,6 +275,21 @@ def cell_lefthanded(c):
 
 def cell_labels5(c):
     labs = gens.cell_labels(c)
+    vm = max(abs(c[k]) for k in ('lx', 'ly', 'lz', 'xy', 'xz', 'yz'))
+    r = [abs(c[k]) / vm for k in ('xy', 'xz', 'yz')]
+    if any(1e-13 < v <= 2e-3 for v in r):          # (not the 1e-17 a family cell carries where its angle is 90 degrees)
+        labs.add('tiny_tilt')                     # a tilt 1e-12 .. 2e-3 of the cell size: almost orthogonal / almost no tilt
+        if any(1e-13 < v <= 1e-9 for v in r):
+            labs.add('tiny_tilt_floored')         # below the documented floor of Box.vects (zeroed; modelled by reading the cell back)
+        if any(1e-9 < v <= 1e-5 for v in r):
+            labs.add('tiny_tilt_1e-9_1e-5')
+    if c.get('rot') and abs(c['rot'][1]) <= 0.2:
+        labs.add('tiny_rot')                      # turned by 1e-10 .. 0.1 degrees: almost in LAMMPS form
+    ls = (c['lx'], c['ly'], c['lz'])
+    if any(0 < abs(ls[i] - ls[j]) <= 2e-3 * ls[i] for i in range(3) for j in range(i)):
+        labs.add('near_equal_len')
+    if labs & {'tiny_tilt', 'tiny_rot', 'near_equal_len'}:
+        labs.add('near_cell')
     labs.discard('lefthanded')
     if cell_lefthanded(c):
         labs.add('lefthanded')
@@ -267,6 +319,45 @@ def shape_labels(V, labels):
 # stored by Atoms with an integer dtype; everything that writes positions back (wrap, box_set(scale=True) and with it
 # normalize) is then cast to integers silently
 KEY_INTPOS = 'C05:pos-integer-typed:truncated-on-write'
+
+# OPEN finding (near-threshold cells): normalize rebuilds the cell from a, b, c, alpha, beta, gamma; a tilt of the rebuilt (LAMMPS) form
+# that comes out below the floor of Box.vects (1e-9 of the largest component, documented) is zeroed, the least-squares "rotation"
+# between old and rebuilt vectors is then off orthonormal by tilt / length, and normalize's own hard-coded asserts (np.isclose, absolute
+# 1e-8) refuse the cell with an empty AssertionError - for a cell that is well conditioned and nowhere near the floor itself, e.g.
+# vects = [[1.9, 1e-7, 0], [0, 0.5, 0], [-1.9, 0, 32.792]] (gamma 5e-8 rad off 90 degrees, rebuilt xy = 0.5 * 5e-8 < 1e-9 * 32.8).
+# Needs an elongated cell (shortest length below a tenth of the largest component) with an angle 1e-8 .. 1e-9 * vmax / length off 90.
+KEY_FLOOR = 'C05:normalize-assert:rebuilt-tilt-below-box-floor'
+
+
+def floor_loss(Vrh):
+    """What the documented floor of Box.vects takes away when the right-handed cell Vrh (rows) is rebuilt in LAMMPS form:
+    -> (dfl, afl): dfl = sum of the |tilts| of the ideal rebuilt cell (own derivation) that are not above 1.1e-9 of its largest component
+    (they may be zeroed), a length; afl = dfl * |inv(Vrh)| (largest absolute column sum), the same as a strain / angle: by that much
+    the rebuilt cell may differ from a rigid rotation of the old one.  For a cell without such tilts both are 0 or rounding-sized."""
+    a, b, c, al, be, ga = my_params(Vrh)
+    ca, cb, cg = (math.cos(math.radians(t)) for t in (al, be, ga))
+    sg = math.sin(math.radians(ga))
+    tilts = (b * cg, c * cb, c * (ca - cb * cg) / sg)
+    vm = max(a, b, c)
+    dfl = sum(abs(t) for t in tilts if abs(t) <= 1.1e-9 * vm)
+    return dfl, dfl * float(np.abs(np.linalg.inv(Vrh)).sum(axis=0).max())
+
+
+def guarded_normalize(system, call):
+    """call() (a normalize of `system` in one of its spellings); the AssertionError of the open finding KEY_FLOOR is keyed"""
+    try:
+        return call()
+    except AssertionError as e:
+        Vh = np.array(system.box.vects, dtype=float)
+        if np.linalg.det(Vh) < 0:
+            Vh[2] = -Vh[2]
+        dfl, afl = floor_loss(Vh)
+        if afl >= 4e-9:
+            raise Violation('normalize refuses a well-conditioned cell with AssertionError(%r): a tilt of the rebuilt cell (%.3g, a strain of %.3g) '
+                            'is below the 1e-9 floor of Box.vects, its own orthonormality asserts (absolute 1e-8) do not allow for that; cell %r'
+                            % (str(e), dfl, afl, Vh.tolist()), key=KEY_FLOOR)
+        raise
+
 
 _DEFAULT_FORMS = {'pos': 'float', 'box': 'array', 'pbc': 'list', 'scaled': False, 'safecopy': False}
 
@@ -307,7 +398,7 @@ def _form_pos(x, form, idt=0):
     if form == 'list':
         return x.tolist()
     if form == 'fortran':
-        return np.asfortranarray(x)
+        return np.array(x, order='F', copy=True)
     if form == 'strided':
         big = np.zeros((x.shape[0], 6), dtype=float)
         big[:, ::2] = x
@@ -386,7 +477,7 @@ def _form_box(am, V, o, form, keep=None, dt=None):
     if form == 'tuple':
         return am.Box(vects=tuple(tuple(r) for r in V.tolist()), origin=tuple(o.tolist()))
     if form == 'fortran':
-        return am.Box(vects=kept(np.asfortranarray(V)), origin=kept(o.copy()))
+        return am.Box(vects=kept(np.array(V, order='F', copy=True)), origin=kept(o.copy()))
     if form == 'readonly':
         Vr, orr = V.copy(), o.copy()
         Vr.flags.writeable = False
@@ -468,9 +559,13 @@ def build_system(am, case, pbc, exact=False):
     pos_obj = _form_pos(s if scaled else x, forms['pos'], idt)
     at_obj = atypes(n)
     prop_objs = {k: v.copy() for k, v in props.items()}
-    for a in [pos_obj, at_obj] + list(prop_objs.values()):
-        if isinstance(a, np.ndarray) and a.flags.writeable:
-            handed_in.append(a)
+    # Atoms (documented: "direct setting (False, default) may result in the Atoms' property pointing to the original numpy array")
+    # may alias the arrays it is given: they count as the caller's own only when the system was built with safecopy=True
+    # ("deep copies ... to avoid this"); Box always copies what it is given into its own storage
+    if forms['safecopy']:
+        for a in [pos_obj, at_obj] + list(prop_objs.values()):
+            if isinstance(a, np.ndarray) and a.flags.writeable:
+                handed_in.append(a)
     atoms = am.Atoms(atype=at_obj, pos=pos_obj, **prop_objs)
     symbols = ('Al', 'Cu', 'Ni') if case.get('symbols') else None
     kw = {} if symbols is None else {'symbols': symbols}
@@ -484,6 +579,8 @@ def build_system(am, case, pbc, exact=False):
         # atomman computed the Cartesian positions itself: they are the input of everything that follows
         x_am = np.array(system.atoms.pos, dtype=float)
         tol = 1e-13 * (3 * max(1.0, float(np.abs(s).max())) * float(np.abs(V).max()) + float(np.abs(o).max()))
+        # vects: the cell as Box holds it (components below 1e-9 of the largest are zero, documented; matters for near-threshold cells)
+        x = s @ np.array(system.box.vects, dtype=float) + o
         require(x_am.shape == x.shape and float(np.abs(x_am - x).max()) <= tol,
                 lambda: 'System(scale=True) did not place the atoms at rel . vects + origin: off by %.3g' % float(np.abs(x_am - x).max()))
         x = x_am
@@ -657,7 +754,21 @@ def _op_read(system, op, ctx, labels):
         # a face normalize pads the cell in its internal wrap and then fails its own orthonormality assert
         # (AssertionError '1.000000 1.000000 1.001000'): outside the property text, not judged here.
         if all(ctx['pbc']) and np.linalg.cond(np.array(system.box.vects, dtype=float)) <= 1e3 and not ctx['int_stored']:
-            system.normalize()
+            guarded_normalize(system, lambda: system.normalize())
+    elif what in ('normalize_ret', 'lmp_normalize', 'lmp_normalize_ret', 'normalize_style'):
+        # the other ways of asking for the same thing (option combinations: method / function, with / without the transform,
+        # style given explicitly), same domain as above
+        if all(ctx['pbc']) and np.linalg.cond(np.array(system.box.vects, dtype=float)) <= 1e3 and not ctx['int_stored']:
+            from atomman.lammps import normalize as lmp_normalize
+            if what == 'normalize_ret':
+                guarded_normalize(system, lambda: system.normalize(return_transform=True))
+            elif what == 'normalize_style':
+                guarded_normalize(system, lambda: system.normalize('lammps', True))
+            elif what == 'lmp_normalize':
+                guarded_normalize(system, lambda: lmp_normalize(system))
+            else:
+                guarded_normalize(system, lambda: lmp_normalize(system, return_transform=True))
+            labels.add('hist_normalize_variant')
     else:
         raise HarnessError('read op %r' % (what,))
     labels.add('hist_read')
@@ -776,6 +887,263 @@ def same_array(a, b):
     return a.shape == b.shape and a.dtype == b.dtype and bool(np.array_equal(a, b))
 
 
+def pre_scribble(case, system, ctx, labels):
+    """case['pre_scribble']: right after construction the caller overwrites the arrays it handed in; the system must not move"""
+    if case.get('pre_scribble'):
+        before = snapshot(system)
+        scribble_in(ctx, labels)
+        d = snapshot_diff(before, snapshot(system))
+        require(d is None, lambda: 'overwriting, after construction, the arrays handed to Atoms / Box changed the system: %s' % d)
+        if 'caller_in' in labels:
+            labels.add('caller_in_before')
+
+
+def near_labels(s0, band0, labels):
+    """relative coordinates 1e-12 .. 2e-3 away from a face plane (an integer): decided by the band or not"""
+    d = np.abs(s0 - np.rint(s0))
+    near = (d >= 5e-13 * np.maximum(1.0, np.abs(s0))) & (d <= 2e-3)       # (not the rounding of a coordinate meant to be on the face)
+    if near.any():
+        labels.add('near_face')
+        if np.any(near & (d > band0)):
+            labels.add('near_face_decided')       # outside the undecided band: inside / outside is judged
+        if np.any(near & (d <= 1e-7)):
+            labels.add('near_face_1e-7')
+
+
+def snapshot_diff(a, b):
+    """None when the two snapshots are the same bit for bit, else a description of the first difference"""
+    for k in ('vects', 'origin'):
+        if not same_array(a[k], b[k]):
+            return 'box %s %r -> %r' % (k, a[k].tolist(), b[k].tolist())
+    for k in ('pbc', 'symbols', 'natoms', 'natypes', 'keys'):
+        if a[k] != b[k]:
+            return '%s %r -> %r' % (k, a[k], b[k])
+    for k in a['keys']:
+        if not same_array(a['props'][k], b['props'][k]):
+            return 'per-atom property %r (%s) %r -> (%s) %r' % (k, a['props'][k].dtype, a['props'][k].tolist(), b['props'][k].dtype, b['props'][k].tolist())
+    return None
+
+
+# ----------------------------------------------------------------------------- what happens AFTER the judged call
+#
+# The property speaks about what a call RETURNED and about the system it was given.  Whatever the caller does afterwards, the
+# things it holds have to stay what they were when they were judged.  case['after'] is a list of operations carried out after
+# the judged call has passed all its oracles (no key: nothing, the cases of earlier rounds):
+#   result ledger (label ledger)  every array / system a call handed out is kept with a copy taken at return time and is compared
+#       with it BIT FOR BIT after later calls on other objects ('other_wrap': another system, other periodicity, other or the
+#       same number of atoms; 'other_normalize': a left-handed tilted one) and on the same object; results of different calls
+#       and the caller's input arrays must not share memory.  'again' repeats the judged call on the same input (wrap: on a deep
+#       copy taken before the call; normalize: on the untouched argument): the answer is the first one, bit for bit.
+#   caller side (labels caller_out / caller_in / reuse)  the caller overwrites in place what it was handed OUT (image flags, the
+#       transform, the normalised system - positions, properties, cell through the setters, periodicity element-wise -, arrays
+#       from the getters) and what it handed IN (the position / type / property arrays given to Atoms, the vects / origin arrays
+#       given to Box; the periodicity array is excluded: System keeps the bool ndarray it is given, see ASSUMPTIONS), re-defines
+#       cell and positions through their setters with the same values and calls again ('reuse'): the system a wrap acted on and
+#       the argument of a normalize must not move, and a repetition still gives the first answer.
+# Independently of 'after', every array handed in is compared at the end of the case with its value at hand-over (a call must not
+# write into the caller's arrays), and case['pre_scribble'] overwrites them right after construction, before the history.
+
+class Ledger:
+    def __init__(self):
+        self.results = []
+
+    def add(self, raw, where):
+        if isinstance(raw, np.ndarray):
+            self.results.append([raw, np.array(raw, copy=True), where])
+        return raw
+
+    def resnap(self, raw):
+        for r in self.results:
+            if r[0] is raw:
+                r[1] = np.array(raw, copy=True)
+
+    def verify(self, handed_in):
+        res = self.results
+        for raw, snap, where in res:
+            require(raw.shape == snap.shape and raw.dtype == snap.dtype and bool(np.array_equal(raw, snap)),
+                    lambda: 'the %s was %r when it was returned and is %r after later calls' % (where, snap.tolist(), raw.tolist()))
+        for i in range(len(res)):
+            for j in range(i + 1, len(res)):
+                require(not np.shares_memory(res[i][0], res[j][0]), lambda: 'two calls returned arrays sharing memory: the %s / the %s' % (res[i][2], res[j][2]))
+            for a, _ in handed_in:
+                require(not np.shares_memory(res[i][0], a), lambda: 'the %s shares memory with an array the caller handed in' % res[i][2])
+
+
+def _scribble(a):
+    if a.dtype.kind == 'b':
+        a[...] = ~a
+    elif a.dtype.kind in 'iu':
+        a[...] = 3
+    else:
+        a[...] = a * -2.5 + 7.0
+
+
+def scribble_in(ctx, labels):
+    """the caller overwrites, in place, the arrays it handed to Atoms / Box (and goes on using them for something else)"""
+    done = False
+    for i, (a, a0) in enumerate(ctx['handed_in']):
+        if a.flags.writeable:
+            _scribble(a)
+            ctx['handed_in'][i] = (a, np.array(a, copy=True))
+            done = True
+    if done:
+        labels.add('caller_in')
+
+
+def check_handed_in(ctx, what):
+    for a, a0 in ctx['handed_in']:
+        require(same_array(a, a0), lambda: '%s changed an array the caller had handed to Atoms / Box: %r -> %r' % (what, a0.tolist(), a.tolist()))
+
+
+def _other_system(am, L, pbc, n=None, lefthanded=False):
+    """another system in the same length unit: tilted cell, atoms outside; n: its number of atoms (default 3)"""
+    n = 3 if n is None else int(n)
+    V = L * np.array([[1.5, 0.0, 0.0], [0.5, 1.0, 0.0], [-0.25, 0.25, 2.0]])
+    if lefthanded:
+        V[2] = -V[2]
+    s = np.array([[1.5 + 0.25 * i, -0.5 - 0.5 * i, 2.25 - 1.5 * i] for i in range(n)])
+    return am.System(atoms=am.Atoms(pos=s @ V + L * 0.125), box=am.Box(vects=V, origin=[L * 0.125] * 3), pbc=list(pbc))
+
+
+def _after_other(am, op, ctx, led, labels, n):
+    """a later call on another object; what it hands out enters the ledger"""
+    from atomman.lammps import normalize as lmp_normalize
+    if op['op'] == 'other_wrap':
+        other = _other_system(am, ctx['L'], op['pbc'], n if op.get('same_n') else None)
+        led.add(other.wrap(return_imageflags=True), 'image flags returned by a later wrap of another system')
+        if op.get('same_n'):
+            labels.add('ledger_same_n')
+    else:
+        other = _other_system(am, ctx['L'], [True, True, True], n if op.get('same_n') else None, lefthanded=True)
+        new, T = (other.normalize(return_transform=True) if op.get('method') else lmp_normalize(other, return_transform=True))
+        led.add(T, 'transform returned by a later normalize of another system')
+        led.add(np.asarray(new.atoms.view['pos']), 'positions of the system returned by a later normalize of another system')
+    labels.add('ledger')
+    labels.add('ledger_other')
+
+
+def after_wrap(am, case, system, pre, ret, ctx, labels):
+    import copy
+    ops = case.get('after') or []
+    led = Ledger()
+    flags0 = None
+    if isinstance(ret, np.ndarray):
+        led.add(ret, 'image flags returned by the judged wrap')
+        flags0 = np.array(ret, copy=True)
+    state = first = snapshot(system)
+    n = system.natoms
+    for op in ops:
+        k = op['op']
+        if k in ('other_wrap', 'other_normalize'):
+            _after_other(am, op, ctx, led, labels, n)
+        elif k == 'again':
+            # the same call on the same input (deep copy taken before the judged call): the same answer, bit for bit
+            again = copy.deepcopy(pre)
+            r2 = again.wrap(return_imageflags=True) if case['ret'] else again.wrap()
+            d = snapshot_diff(first, snapshot(again))
+            require(d is None, lambda: 'wrap of a deep copy of the same system (taken before the call) gives another result: %s' % d)
+            if flags0 is not None:
+                require(isinstance(r2, np.ndarray) and same_array(r2, flags0), lambda: 'wrap of a deep copy of the same system returns other image flags: %r / %r' % (flags0.tolist(), np.asarray(r2).tolist()))
+                led.add(r2, 'image flags returned by the repeated wrap')
+            labels.add('again')
+            labels.add('ledger')
+        elif k == 'scribble_out':
+            if isinstance(ret, np.ndarray):
+                ret[...] = -7
+                led.resnap(ret)
+            for a in (system.box.vects, system.box.origin, system.box.avect, system.box.reciprocal_vects,
+                      system.atoms_prop(key='pos', scale=True), system.atoms_prop(key='pos')):
+                _scribble(a)
+            labels.add('caller_out')
+        elif k == 'scribble_in':
+            scribble_in(ctx, labels)
+        elif k == 'reuse':
+            # cell and positions re-defined through their setters (same values), then the object is used again
+            system.box.vects = system.box.vects
+            system.box.origin = system.box.origin
+            system.atoms.pos = np.array(system.atoms.pos, copy=True)
+            d = snapshot_diff(state, snapshot(system))
+            require(d is None, lambda: 'setting cell / positions to the values they have changed the system: %s' % d)
+            led.add(system.wrap(return_imageflags=True), 'image flags returned by a second wrap of the same system')
+            state = snapshot(system)
+            labels.add('reuse')
+            labels.add('ledger')
+            continue
+        else:
+            raise HarnessError('after op %r' % (k,))
+        d = snapshot_diff(state, snapshot(system))
+        require(d is None, lambda: 'the wrapped system changed through a later %s that does not concern it: %s' % (k, d))
+    led.verify(ctx['handed_in'])
+    check_handed_in(ctx, 'wrap')
+    if ops:
+        labels.add('after')
+
+
+def after_normalize(am, case, system, snap, new, T_raw, f, ctx, labels):
+    ops = case.get('after') or []
+    led = Ledger()
+    snap_new = cur_new = snapshot(new)        # the first answer / the result object as the caller left it
+    T0 = None
+    if isinstance(T_raw, np.ndarray):
+        led.add(T_raw, 'transform returned by the judged normalize')
+        T0 = np.array(T_raw, copy=True)
+    new_valid = True
+    n = system.natoms
+    for op in ops:
+        k = op['op']
+        if k in ('other_wrap', 'other_normalize'):
+            _after_other(am, op, ctx, led, labels, n)
+        elif k == 'again':
+            # the argument is as it was: the same call gives the same answer, bit for bit, in new objects
+            res2 = guarded_normalize(system, (lambda: f(return_transform=True)) if case['ret'] else f)
+            new2, T2 = res2 if case['ret'] else (res2, None)
+            require(isinstance(new2, am.System) and new2 is not new and new2 is not system, 'a repeated normalize returned an object it had returned before / its argument')
+            d = snapshot_diff(snap_new, snapshot(new2))
+            require(d is None, lambda: 'normalize of the same, unchanged system gives another result the second time: %s' % d)
+            require(not np.shares_memory(np.asarray(new2.atoms.view['pos']), np.asarray(new.atoms.view['pos'])), 'the systems returned by two normalize calls share their positions')
+            if T0 is not None:
+                require(isinstance(T2, np.ndarray) and same_array(T2, T0), lambda: 'normalize of the same, unchanged system returns another transform the second time: %r / %r' % (T0.tolist(), np.asarray(T2).tolist()))
+                led.add(T2, 'transform returned by the repeated normalize')
+            labels.add('again')
+            labels.add('ledger')
+        elif k == 'scribble_out':
+            # the caller goes on working with what it was handed out: in place, through the setters, element-wise
+            if isinstance(T_raw, np.ndarray):
+                T_raw[...] = 0.0
+                led.resnap(T_raw)
+            for key in list(new.atoms.prop()):
+                if key != 'atype':
+                    _scribble(np.asarray(new.atoms.view[key]))
+            V1 = np.array(new.box.vects, dtype=float)
+            new.box_set(vects=V1[[1, 2, 0]] * 2.0, origin=np.array(new.box.origin, dtype=float) + V1[0])
+            new.pbc[1] = False
+            new.pbc[2] = False
+            new_valid = False
+            labels.add('caller_out')
+        elif k == 'scribble_in':
+            scribble_in(ctx, labels)
+        elif k == 'reuse':
+            # the result is used (wrapped, normalised again), the argument is normalised once more
+            if new_valid:
+                new.wrap()
+                guarded_normalize(new, lambda: new.normalize())
+                cur_new = snapshot(new)
+            guarded_normalize(system, f)
+            labels.add('reuse')
+            labels.add('ledger')
+        else:
+            raise HarnessError('after op %r' % (k,))
+        d = snapshot_diff(snap, snapshot(system))
+        require(d is None, lambda: 'the argument of normalize changed through a later %s: %s' % (k, d))
+        if new_valid:
+            d = snapshot_diff(cur_new, snapshot(new))
+            require(d is None, lambda: 'the system returned by normalize changed through a later %s that does not concern it: %s' % (k, d))
+    led.verify(ctx['handed_in'])
+    check_handed_in(ctx, 'normalize')
+    if ops:
+        labels.add('after')
+
+
 def check_props(system, atype0, props, what, exact_keys=None):
     """atype and the extra properties of `system` are the ones put in, row by row"""
     n = len(atype0)
@@ -824,9 +1192,51 @@ def _draw_sym(draw, c):
     return c
 
 
+# near-threshold cells: quantities 1e-12 .. 1e-3 (relative) away from a structural special case.  Tilts that are tiny but not zero
+# (almost orthogonal, almost right angles), a rigid rotation by 1e-10 .. 0.1 degrees (almost in LAMMPS form: the upper triangle tiny
+# but not zero), cell lengths that differ by 1e-12 .. 1e-3 (almost tetragonal / cubic).  Box.vects zeroes components below 1e-9 of the
+# largest one (documented): the judged cell is the one read back from the system; ratios within 10 % of that rung are moved off it.
+_near_e = st.floats(-12.0, -3.0, allow_nan=False)
+_near_tilt1 = st.tuples(st.sampled_from((0, 1, 2, 2, 2)), _near_e, st.sampled_from((-1.0, 1.0)))
+_near_rot_e = st.floats(-10.0, -1.0, allow_nan=False)
+_rot_axis = st.sampled_from([[0, 0, 1], [1, 0, 0], [0, 1, 0], [1, 1, 1], [1, -2, 3], [-4, 1, 0]])
+_int3 = st.integers(0, 2)
+
+
+def _draw_near(draw, c):
+    """the cell dict c, in 1 case of 6 pushed next to a special case (see above); several kinds may combine"""
+    if draw(_int6):
+        return c
+    c = dict(c)
+    kinds = draw(_int8)                   # bit 0: tilts, bit 1: rotation, bit 2: lengths; 0 -> tilts
+    if kinds == 0:
+        kinds = 1
+    if kinds & 4:
+        e, sg = draw(_near_e), draw(st.sampled_from((-1.0, 1.0)))
+        c['ly'] = c['lx'] * (1.0 + sg * 10.0 ** e)
+        if draw(_bool):
+            c['lz'] = c['lx'] * (1.0 - sg * 10.0 ** draw(_near_e))
+    if kinds & 1:
+        tt = [list(draw(_near_tilt1)) for _ in range(3)]
+        if not any(t[0] == 2 for t in tt):
+            tt[draw(_int3)][0] = 2
+        for key, lk, (mode, ex, sg) in zip(('xy', 'xz', 'yz'), ('lx', 'lx', 'ly'), tt):
+            if mode == 1:
+                c[key] = 0.0
+            elif mode == 2:
+                c[key] = sg * 10.0 ** ex * c[lk]
+        vm = max(abs(c[k]) for k in ('lx', 'ly', 'lz', 'xy', 'xz', 'yz'))
+        for key in ('xy', 'xz', 'yz'):
+            if 0.9e-9 < abs(c[key]) / vm < 1.1e-9:
+                c[key] = c[key] * 2.0
+    if kinds & 2:
+        c['rot'] = [draw(_rot_axis), 10.0 ** draw(_near_rot_e)]
+    return c
+
+
 @st.composite
 def _cells_sym(draw):
-    return _draw_sym(draw, draw(_cells_plain))
+    return _draw_sym(draw, _draw_near(draw, draw(_cells_plain)))
 
 
 _cells = _cells_sym()
@@ -842,6 +1252,30 @@ _points = st.lists(_point, min_size=1, max_size=12)
 _points_far = st.lists(st.one_of(_point, _point_far), min_size=1, max_size=12)
 _points_n = st.lists(_point, min_size=1, max_size=8)
 _points_n_far = st.lists(st.one_of(_point, _point, _point_far), min_size=1, max_size=8)
+# near-threshold coordinates: 1e-12 .. 1e-3 cells away from a face plane (either side of it), also of a far image
+_near_vals = st.builds(lambda k, e, sg, m: float(k) + sg * m * 10.0 ** -e, st.sampled_from([0, 1, 0, 1, -1, 2, -3, 5, 1000, -100000]),
+                       st.integers(3, 12), st.sampled_from([-1.0, 1.0]), st.sampled_from([1.0, 1.0, 2.5, 7.0]))
+_coord_near = st.one_of(_coord, _near_vals, _near_vals)
+_point_near = st.lists(_coord_near, min_size=3, max_size=3)
+_points_near = st.lists(st.one_of(_point, _point_near, _point_near), min_size=1, max_size=12)
+_points_n_near = st.lists(st.one_of(_point, _point_near, _point_near), min_size=1, max_size=8)
+# many decades in one call: every row has its own magnitude 10^k (k = -9 .. 5, all three coordinates of that size), the first two rows
+# are 8 or more orders of magnitude apart; judged row by row (tolerance of a row from its own size) and against the row wrapped alone
+_dec_k = st.integers(-9, 5)
+_dec_m = st.sampled_from([1.0, -1.0, 2.5, -3.75, 7.0, 0.5, -0.25])
+
+
+@st.composite
+def _points_decades(draw, nmax=8):
+    ks = [draw(st.sampled_from([-9, -9, -8])), draw(st.sampled_from([0, 1, 3, 5, 5]))]
+    ks += [draw(_dec_k) for _ in range(draw(st.integers(0, nmax - 2)))]
+    rows = [[draw(_dec_m) * 10.0 ** k for _ in range(3)] for k in ks]
+    if draw(_bool):
+        rows.reverse()
+    return rows
+
+
+_points_dec = _points_decades()
 _nprops = st.sampled_from([0, 1, 2, 3, 3])
 # Hypothesis over-represents the first element of sampled_from (shrink target): put the fully periodic setting first
 _PBCS = [[True, True, True], [True, True, False], [True, False, True], [False, True, True], [True, False, False],
@@ -877,7 +1311,8 @@ _pos_op = st.builds(lambda via, i, d: {'op': 'pos', 'via': via, 'i': i, 'd': d},
                     st.sampled_from(['inplace', 'setter', 'scaled', 'scaled_index']), st.integers(0, 11), _d3)
 _rebuild_op = st.builds(lambda via: {'op': 'rebuild', 'via': via}, st.sampled_from(['shared', 'deepcopy', 'ix', 'model', 'safecopy']))
 _rebuild_exact_op = st.builds(lambda via: {'op': 'rebuild', 'via': via}, st.sampled_from(['shared', 'deepcopy', 'ix', 'safecopy']))
-_read_op = st.builds(lambda w: {'op': 'read', 'what': w}, st.sampled_from(['dvect', 'dmag', 'df', 'str', 'box_params', 'normalize']))
+_read_op = st.builds(lambda w: {'op': 'read', 'what': w}, st.sampled_from(['dvect', 'dmag', 'df', 'str', 'box_params', 'normalize',
+                                                                       'normalize_ret', 'lmp_normalize_ret', 'lmp_normalize', 'normalize_style']))
 _other_op = st.builds(lambda p: {'op': 'other_wrap', 'pbc': p}, _pbcs)
 _int16 = st.integers(0, 15)
 _int4 = st.integers(0, 3)
@@ -920,12 +1355,13 @@ _hist = _hist_strategy(False)
 _hist_exact = _hist_strategy(True)
 
 # documented input forms (Atoms: "list/ndarray"; Box: "array-like"; System.pbc: "tuple or list of bool" / bool ndarray)
-_pos_form = st.sampled_from(['float', 'float', 'float', 'float', 'float', 'float', 'float', 'float', 'list', 'list', 'fortran', 'strided',
-                             'int_array', 'int_list', 'int_array', 'int_array', 'int_array', 'float32', 'float32'])
+_pos_form = st.sampled_from(['float', 'float', 'float', 'float', 'float', 'float', 'float', 'float', 'list', 'list', 'list', 'fortran', 'strided',
+                             'int_array', 'int_list', 'int_array', 'int_array', 'int_array', 'int_array', 'float32', 'float32'])
 # which integer-like dtype an 'int_array' has: index into INT_DTYPES (Hypothesis over-represents the first element: int32)
-_int_dtype = st.sampled_from(list(range(1, len(INT_DTYPES))) + [0, 0, 8])
-_box_form = st.sampled_from(['array', 'array', 'array', 'list', 'tuple', 'fortran', 'readonly', 'avects'])
-_pbc_form = st.sampled_from(['list', 'list', 'tuple', 'ndarray', 'ndarray', 'int_list', 'int_array', 'npbool', 'strided', 'readonly'])
+_int_dtype = st.sampled_from(list(range(1, len(INT_DTYPES))) + [0, 0, 8, 8, 8, 2, 3, 5])
+_box_form = st.sampled_from(['array', 'array', 'array', 'list', 'tuple', 'fortran', 'readonly', 'avects', 'f32', 'int', 'f16', 'f32'])
+_pbc_form = st.sampled_from(['list', 'list', 'tuple', 'ndarray', 'ndarray', 'int_list', 'int_array', 'npbool', 'strided', 'readonly',
+                             'int8_array', 'uint8_array'])
 _one_in_5 = st.sampled_from([False, False, False, False, True])
 _forms = st.builds(lambda a, b, c, d, e, i: {'pos': a, 'box': b, 'pbc': c, 'scaled': d, 'safecopy': e, 'idt': i},
                    _pos_form, _box_form, _pbc_form, _one_in_5, _one_in_5, _int_dtype)
@@ -947,6 +1383,36 @@ def _with_scale(c, k, base, forms):
     return c
 
 
+# what the caller does after the judged call (see "what happens AFTER the judged call"): nothing in half of the cases
+_after_op = st.one_of(
+    st.builds(lambda p, sn: {'op': 'other_wrap', 'pbc': p, 'same_n': sn}, _pbcs, _bool),
+    st.builds(lambda m, sn: {'op': 'other_normalize', 'method': m, 'same_n': sn}, _bool, _bool),
+    st.just({'op': 'again'}), st.just({'op': 'again'}),
+    st.just({'op': 'scribble_out'}), st.just({'op': 'scribble_in'}), st.just({'op': 'reuse'}))
+_after_ops = st.lists(_after_op, min_size=1, max_size=3)
+
+
+def _draw_after(draw, case):
+    """adds 'after' (1-3 operations, half of the cases) and 'pre_scribble' (1 case in 8) to the case"""
+    if draw(_bool):
+        case['after'] = draw(_after_ops)
+    if draw(_int8) == 0:
+        case['pre_scribble'] = True
+    return case
+
+
+def _draw_points(draw, plain, far, near, n_dec):
+    """-> (relative coordinates, single?): 1 case in 6 far atoms, 1 in 6 near-face coordinates, 1 in 8 rows spanning decades"""
+    j = draw(st.integers(0, 23))
+    if j < 4:
+        return draw(far), False
+    if j < 8:
+        return draw(near), False
+    if j < 11:
+        return draw(n_dec), True
+    return draw(plain), False
+
+
 def final_pbc(pbc0, hist):
     pbc = list(pbc0)
     for op in hist:
@@ -958,20 +1424,27 @@ def final_pbc(pbc0, hist):
 @st.composite
 def wrap_cases(draw):
     c = draw(_cells)
-    far = draw(_int6) == 0
-    rel = draw(_points_far if far else _points)
+    rel, single = _draw_points(draw, _points, _points_far, _points_near, _points_dec)
     pbc0, hist = draw(_pbcs), draw(_hist)
     forms = draw(_forms)
     c = _with_scale(c, draw(_scale_k10), 10.0, forms)
     # 'pbc' is the periodicity at the judged call, 'pbc0' the one given to the constructor
-    return {'cell': c, 'pbc0': pbc0, 'pbc': final_pbc(pbc0, hist), 'rel': rel, 'nprops': draw(_nprops),
+    case = {'cell': c, 'pbc0': pbc0, 'pbc': final_pbc(pbc0, hist), 'rel': rel, 'nprops': draw(_nprops),
             'ret': draw(_int6) != 0, 'symbols': draw(_bool), 'hist': hist, 'forms': forms}
+    if single:
+        case['single'] = True
+    return _draw_after(draw, case)
 
 
 _pow2 = st.sampled_from([0.5, 1.0, 2.0, 4.0, 8.0, 16.0])
 _dy_origin = st.one_of(st.just(0.0), gens.dyadic(-8, 8, 4))
 _dy_tilt = st.one_of(st.just(0.0), st.just(0.0), gens.dyadic(-3, 3, 2))
+# k +- 2^-e: exactly representable coordinates next to a face (either side), decided with a zero band like the faces themselves
+_dy_near = st.builds(lambda k, e, sg: float(k) + sg * 2.0 ** -e, st.sampled_from([0, 1, 0, 1, -1, 2, -3, 40]), st.sampled_from([10, 20, 30, 30]),
+                     st.sampled_from([-1.0, 1.0]))
 _dy_coord = st.one_of(gens.dyadic(-6, 7, 2), st.sampled_from([0.0, 1.0, 0.0, 1.0, -1.0, 2.0, 0.5]), gens.dyadic(-64, 64, 3))
+_dy_coord_near = st.one_of(_dy_coord, _dy_near)
+_dy_points_near = st.lists(st.lists(_dy_coord_near, min_size=3, max_size=3), min_size=1, max_size=10)
 _dy_points = st.lists(st.lists(_dy_coord, min_size=3, max_size=3), min_size=1, max_size=10)
 
 
@@ -985,24 +1458,26 @@ def wrap_exact_cases(draw):
     pbc0, hist = draw(_pbcs), draw(_hist_exact)
     forms = draw(_forms)
     c = _with_scale(c, draw(_scale_k2), 2.0, forms)          # power of two: every number stays exactly representable
-    return {'cell': c, 'pbc0': pbc0, 'pbc': final_pbc(pbc0, hist), 'rel': draw(_dy_points), 'nprops': draw(_nprops),
+    # 1 case in 4 with coordinates next to a face (k +- 2^-e; not representable on the grid of the float32 form)
+    case = {'cell': c, 'pbc0': pbc0, 'pbc': final_pbc(pbc0, hist), 'rel': draw(_dy_points_near if (draw(_int4) == 0 and forms['pos'] != 'float32') else _dy_points), 'nprops': draw(_nprops),
             'ret': True, 'symbols': False, 'hist': hist, 'forms': forms}
+    return _draw_after(draw, case)
 
 
 @st.composite
 def normalize_cases(draw):
     c = draw(_cells)
-    far = draw(_int6) == 0
-    rel = draw(_points_n_far if far else _points_n)
+    rel, _ = _draw_points(draw, _points_n, _points_n_far, _points_n_near, _points_dec)
     pbc0, hist = draw(_pbcs), draw(_hist)
     if not all(final_pbc(pbc0, hist)):
         # normalize is stated for fully periodic systems: the history ends by making the system fully periodic
         hist = hist + [{'op': 'pbc', 'how': draw(_PBC_HOWS), 'to': [True, True, True]}]
     forms = draw(_forms)
     c = _with_scale(c, draw(_scale_k10), 10.0, forms)
-    return {'cell': c, 'rel': rel, 'nprops': draw(_nprops), 'ret': draw(_int6) != 0,
-            'via': draw(st.sampled_from(['method', 'method', 'function'])), 'symbols': draw(_bool),
+    case = {'cell': c, 'rel': rel, 'nprops': draw(_nprops), 'ret': draw(_int6) != 0,
+            'via': draw(st.sampled_from(['method', 'method', 'function', 'method_style', 'function', 'method_pos'])), 'symbols': draw(_bool),
             'pbc0': pbc0, 'hist': hist, 'forms': forms}
+    return _draw_after(draw, case)
 
 
 # ----------------------------------------------------------------------------- wrap
@@ -1034,6 +1509,7 @@ def oracle_wrap(case, exact=False, ctx_out=None):
         Vc = np.array(system.box.vects, dtype=float)
         require(np.abs(Vc - V).max() <= 1e-8 * float(np.abs(V).max()), lambda: 'System construction changed the cell: %r -> %r' % (V, Vc))
         require(np.array_equal(np.array(system.atoms.pos, dtype=float), x), 'System construction changed the positions')
+    pre_scribble(case, system, ctx, labels)
     system = apply_history(am, system, hist, ctx, labels)
     if ctx['changed']:
         # the judged input is the system as its history left it
@@ -1086,6 +1562,10 @@ def oracle_wrap(case, exact=False, ctx_out=None):
     onface = bool(np.any((s == 0.0) | (s == 1.0)))
 
     sym0 = tuple(system.symbols)
+    pre = None
+    if any(op['op'] == 'again' for op in (case.get('after') or [])):
+        import copy
+        pre = copy.deepcopy(system)
     ret = system.wrap(return_imageflags=True) if case['ret'] else system.wrap()
 
     V1 = np.array(system.box.vects, dtype=float)
@@ -1121,6 +1601,18 @@ def oracle_wrap(case, exact=False, ctx_out=None):
     err = float(np.abs(moved - expect).max())
     require(err <= tol_x, lambda: 'positions before - after differ from imageflags.vects by %.3g (tol %.3g); pbc %r flags %r\nrel before %r\nmoved (in cell vectors) %r'
             % (err, tol_x, pbc, flags.tolist(), s0.tolist(), rel_coords(moved, Vb, np.zeros(3)).tolist()))
+    # ... and row by row: every atom is moved by its own computation (relative coordinate of that atom, floor, back), so the
+    # error of a row scales with the size of THAT row, not with the largest coordinate in the array (same constants as above)
+    srow = np.maximum(1.0, np.abs(s0).max(axis=1))
+    tol_rows = 0.0 * srow if exact else _TS * 2e-14 * cond * (srow * vmax * 3 + omax)
+    err_rows = np.abs(moved - expect).max(axis=1)
+    if np.any(err_rows > tol_rows):
+        i = int(np.argmax(err_rows - tol_rows))
+        raise Violation('atom %d (relative coordinates %r, the largest in the system: %.3g): position before - after differs from imageflags.vects by %.3g, '
+                        'tolerance for a row of this size %.3g' % (i, s0[i].tolist(), smax, err_rows[i], tol_rows[i]))
+    smag = np.abs(s0).max(axis=1)
+    if smag.min() > 0 and smag.max() >= 1e8 * smag.min():
+        labels.add('decades')                 # the relative coordinates of the rows span 8 or more orders of magnitude
 
     # --- cell: periodic rows unchanged, non-periodic only grows (old cell inside the new one)
     for k in range(3):
@@ -1173,6 +1665,23 @@ def oracle_wrap(case, exact=False, ctx_out=None):
         labels.add('props')
     if out_before and (labels & {'tilted', 'lefthanded', 'mixed_pbc'}):
         labels.add('nt')
+    near_labels(s0, band0, labels)
+    if case.get('single') and n >= 2:
+        # many decades in one call: the smallest and the largest row, each wrapped alone in the same cell, end where they ended
+        # in the company of the others (rows within the undecided band of a face excepted: one image either way)
+        for i in sorted({int(np.argmin(smag)), int(np.argmax(smag))}):
+            one = am.System(atoms=am.Atoms(pos=x[i:i + 1].copy()), box=am.Box(vects=Vb.copy(), origin=o.copy()), pbc=list(pbc))
+            one.wrap()
+            dx = np.array(one.atoms.pos, dtype=float)[0] - x1[i]
+            if np.any(np.abs(s0[i] - np.rint(s0[i])) <= band0):
+                # within the undecided band of a face: one image either way along a periodic direction
+                m = np.rint(rel_coords(dx[None, :], Vb, np.zeros(3))[0]) * np.array(pbc, dtype=float)
+                dx = dx - m @ Vb
+            e1 = float(np.abs(dx).max())
+            require(e1 <= 2 * tol_rows[i], lambda: 'atom %d (relative coordinates %r) wrapped alone ends at %r, wrapped together with atoms up to %.3g cells away at %r'
+                    % (i, s0[i].tolist(), np.array(one.atoms.pos)[0].tolist(), smax, x1[i].tolist()))
+            labels.add('single_row')
+    after_wrap(am, case, system, pre, ret, ctx, labels)
     return labels
 
 
@@ -1203,6 +1712,7 @@ def oracle_normalize(case, ctx_out=None):
     at0 = atypes(n)
     scale_labels(ctx['L'], labels)
     form_labels(ctx, labels)
+    pre_scribble(case, system, ctx, labels)
     system = apply_history(am, system, hist, ctx, labels)
     if ctx['changed']:
         # the judged input is the system as its history left it
@@ -1232,18 +1742,31 @@ def oracle_normalize(case, ctx_out=None):
         labels.add('inplace_toggled_out')
     snap = snapshot(system)
 
-    f = (lambda **kw: system.normalize(**kw)) if case['via'] == 'method' else (lambda **kw: lmp_normalize(system, **kw))
-    labels.add('via_' + case['via'])
+    via = case['via']
+    if via == 'method':
+        f = lambda **kw: system.normalize(**kw)
+    elif via == 'method_style':
+        f = lambda **kw: system.normalize(style='lammps', **kw)           # the style option given explicitly
+    elif via == 'method_pos':
+        f = lambda **kw: system.normalize('lammps', *([True] if kw.get('return_transform') else []))      # positionally
+    elif via == 'function':
+        f = lambda **kw: lmp_normalize(system, **kw)
+    else:
+        raise HarnessError('via %r' % (via,))
+    labels.add('via_' + ('method' if via.startswith('method') else via))
+    if via in ('method_style', 'method_pos'):
+        labels.add('via_style_given')
     if case['ret']:
-        res = f(return_transform=True)
+        res = guarded_normalize(system, lambda: f(return_transform=True))
         require(isinstance(res, tuple) and len(res) == 2, lambda: 'normalize(return_transform=True) returned %r' % type(res))
         new, T = res
+        T_raw = T
         T = np.array(T, dtype=float)
         require(T.shape == (3, 3) and np.all(np.isfinite(T)), lambda: 'transform is not a finite 3x3 array: %r' % (T,))
         labels.add('transform_returned')
     else:
-        new = f()
-        T = None
+        new = guarded_normalize(system, f)
+        T = T_raw = None
     require(isinstance(new, am.System), lambda: 'normalize returned %r, not a System' % type(new))
 
     # --- the input system is left as it was (bitwise), and the result is a new object sharing nothing with it
@@ -1284,11 +1807,16 @@ def oracle_normalize(case, ctx_out=None):
     shape_labels(Vref, labels)
     p0, p1 = my_params(Vref), my_params(V1)
     reltol = _TS * (1e-8 + 40 * EPS * cond ** 2)
+    # what the documented floor of Box.vects may take away from the rebuilt cell (tilts below 1e-9 of its largest component are zeroed):
+    # dfl as a length, afl as a strain / angle (see floor_loss).  Zero / rounding-sized unless the cell is next to that threshold.
+    dfl, afl = floor_loss(Vref)
+    if dfl > 1e-12 * vmax:
+        labels.add('floor_active')
     for i, nm in enumerate(('a', 'b', 'c')):
-        require(abs(p1[i] - p0[i]) <= reltol * vmax, lambda: 'length %s changed: %.15g -> %.15g%s' % (nm, p0[i], p1[i], ' (left-handed input)' if lh else ''))
+        require(abs(p1[i] - p0[i]) <= reltol * vmax + dfl, lambda: 'length %s changed: %.15g -> %.15g%s' % (nm, p0[i], p1[i], ' (left-handed input)' if lh else ''))
     for i, nm in ((3, 'alpha'), (4, 'beta'), (5, 'gamma')):
         e = abs(math.cos(math.radians(p1[i])) - math.cos(math.radians(p0[i])))
-        require(e <= reltol, lambda: 'angle %s changed: %.12g -> %.12g deg%s' % (nm, p0[i], p1[i], ' (left-handed input, third vector reversed)' if lh else ''))
+        require(e <= reltol + 2 * afl, lambda: 'angle %s changed: %.12g -> %.12g deg%s' % (nm, p0[i], p1[i], ' (left-handed input, third vector reversed)' if lh else ''))
     vol0, vol1 = abs(float(np.linalg.det(Vb))), float(np.linalg.det(V1))
     require(abs(vol1 - vol0) <= 6 * reltol * p0[0] * p0[1] * p0[2], lambda: 'volume changed %.15g -> %.15g' % (vol0, vol1))
 
@@ -1296,9 +1824,9 @@ def oracle_normalize(case, ctx_out=None):
     Tuse = None
     if T is not None:
         e = float(np.abs(T @ T.T - np.eye(3)).max())
-        require(e <= 1e-7, lambda: 'transform is not orthonormal: |T.T^T - I| = %.3g\n%r' % (e, T))
+        require(e <= 1e-7 + 4 * afl, lambda: 'transform is not orthonormal: |T.T^T - I| = %.3g\n%r' % (e, T))
         d = float(np.linalg.det(T))
-        require(d > 0 and abs(d - 1) <= 1e-6, lambda: 'transform is not a proper rotation: det = %.12g%s' % (d, ' (left-handed input)' if lh else ''))
+        require(d > 0 and abs(d - 1) <= 1e-6 + 4 * afl, lambda: 'transform is not a proper rotation: det = %.12g%s' % (d, ' (left-handed input)' if lh else ''))
         e = float(np.abs(Vref @ T.T - V1).max())
         require(e <= _TS * (1e-8 + 200 * EPS * cond ** 2) * vmax, lambda: 'new vectors are not transform . old vectors: differ by %.3g\nold %r\nnew %r\nT %r' % (e, Vref.tolist(), V1.tolist(), T.tolist()))
         Tuse = T
@@ -1314,12 +1842,18 @@ def oracle_normalize(case, ctx_out=None):
     # --- all true nearest-image distances unchanged (pair by pair; atoms keep their rows, checked above through the tags)
     if n >= 2:
         ni0, ni1 = NearestImage(Vb, pbc), NearestImage(V1, pbc)
+        smag = np.abs(s0).max(axis=1)
+        if smag.min() > 0 and smag.max() >= 1e8 * smag.min():
+            labels.add('decades')
         # positions error: relative coordinates are carried with error eps*cond*smax, times the cell size
-        tol_d = (reltol * vmax * 3) + _TS * 1e-13 * cond * (smax * vmax * 3 + omax)
+        tol_d = (reltol * vmax * 3) + _TS * 1e-13 * cond * (smax * vmax * 3 + omax) + 3 * dfl * cond
         for i in range(n):
             for j in range(i + 1, n):
                 r0 = ni0.search(x[j] - x[i])
                 r1 = ni1.search(x1[j] - x1[i])
+                # the separation of a pair is computed from its two rows only: the position term scales with the larger of the two
+                tol_ij = (reltol * vmax * 3) + _TS * 1e-13 * cond * (max(1.0, smag[i], smag[j]) * vmax * 3 + omax) + 3 * dfl * cond
+                require(abs(r0['L'] - r1['L']) <= tol_ij, lambda: 'nearest-image distance of atoms %d,%d changed %.12g -> %.12g (tolerance for rows of this size %.3g; largest coordinate in the system %.3g)' % (i, j, r0['L'], r1['L'], tol_ij, smax))
                 require(abs(r0['L'] - r1['L']) <= tol_d,
                         lambda: 'nearest-image distance of atoms %d,%d changed %.12g -> %.12g (tol %.3g)%s; relative before %r %r after %r %r'
                         % (i, j, r0['L'], r1['L'], tol_d, ' (left-handed input)' if lh else '', s0[i].tolist(), s0[j].tolist(), s1[i].tolist(), s1[j].tolist()))
@@ -1329,7 +1863,7 @@ def oracle_normalize(case, ctx_out=None):
                     dv = (x1[j] - x1[i]) - Tuse @ (x[j] - x[i])
                     m = rel_coords(dv[None, :], V1, np.zeros(3))[0]
                     em = float(np.abs(m - np.rint(m)).max())
-                    tol_m = float((inside_band(V1, np.zeros(3), smax, 0.0) + _TS * 1e-13 * cond * (smax + omax / vmax) + 3 * (reltol + _TS * 200 * EPS * cond ** 2) * smax * cond).max())
+                    tol_m = float((inside_band(V1, np.zeros(3), smax, 0.0) + _TS * 1e-13 * cond * (smax + omax / vmax) + 3 * (reltol + _TS * 200 * EPS * cond ** 2) * smax * cond).max()) + 4 * afl * smax * cond
                     require(em <= tol_m, lambda: 'separation of atoms %d,%d is not the rotated old separation plus a lattice vector: residual %r cell vectors (tol %.3g)' % (i, j, m.tolist(), tol_m))
         labels.add('pairs')
     if out_before:
@@ -1340,11 +1874,97 @@ def oracle_normalize(case, ctx_out=None):
         labels.add('onface')
     if out_before and (labels & {'tilted', 'lefthanded', 'rotated', 'sym', 'lowertri_negdiag'}):
         labels.add('nt')
+    near_labels(s0, band0, labels)
+    after_normalize(am, case, system, snap, new, T_raw, f, ctx, labels)
     return labels
 
 
+# ----------------------------------------------------------------------------- enumerated option combinations
+#
+# Everything that can be combined around one call and touches the same state, enumerated instead of sampled: the periodicity
+# given to the constructor (all 8), changed afterwards or not (element-wise in place / through the setter), an earlier call on the
+# same object BEFORE and another AFTER that change - each of: none, wrap with / without image flags, normalize as method / as
+# function with the transform, a wrap of another system - and between the two the periodicity changed and / or an atom moved out of the
+# cell in place: every ordered pair and triple of (call, change, call),
+# then the judged call with each of its own options (wrap: return_imageflags; normalize: method / style given / positional / function
+# x return_transform), followed by a repetition ('again').  Judged by the same oracles as the sampled clauses.
+
+_ENUM_CELLS = [
+    # left-handed, tilted, rigidly rotated, origin
+    {'lx': 3.2, 'ly': 4.1, 'lz': 5.3, 'xy': 1.3, 'xz': -0.7, 'yz': 2.2, 'origin': [0.4, -1.3, 2.6], 'rot': [[1, -2, 3], 37.5], 'lefthanded': True},
+    # LAMMPS form turned by 180 degrees about z (lower triangular, negative diagonal entries)
+    {'lx': 2.5, 'ly': 3.5, 'lz': 4.0, 'xy': -1.0, 'xz': 0.5, 'yz': 1.5, 'origin': [0.0, 0.0, 0.0], 'rot': None, 'lefthanded': False,
+     'sym': {'m': 0, 'p': 0, 's': 6}},
+    # already in LAMMPS form, metres
+    {'lx': 4.05, 'ly': 4.05, 'lz': 6.1, 'xy': 0.0, 'xz': 0.0, 'yz': -2.025, 'origin': [1.0, 2.0, 3.0], 'rot': None, 'lefthanded': False, 'scale': 1e-10},
+    # cyclically renamed and mirrored
+    {'lx': 6.0, 'ly': 2.0, 'lz': 3.0, 'xy': 3.0, 'xz': 0.0, 'yz': 1.0, 'origin': [-5.0, 0.5, 0.0], 'rot': None, 'lefthanded': False,
+     'sym': {'m': 21, 'p': 4, 's': 1}},
+]
+_ENUM_REL = [[-0.25, 0.5, 1.75], [0.0, 1.0, 0.5], [2.5, -3.25, 0.125], [0.3, 0.6, 0.9], [-17.5, 1.0, 41.0625]]
+_ENUM_PRIORS = [None, {'op': 'wrap', 'ret': True}, {'op': 'wrap', 'ret': False}, {'op': 'read', 'what': 'normalize'},
+                {'op': 'read', 'what': 'lmp_normalize_ret'}, {'op': 'other_wrap', 'pbc': [False, True, False]}]
+_ENUM_PRIORS_QUICK = [p for p in _ENUM_PRIORS if p is None or p.get('what') != 'normalize']
+_ENUM_FORMS = {'pos': 'float', 'box': 'array', 'pbc': 'list', 'scaled': False, 'safecopy': False, 'idt': 0}
+
+
+_ENUM_EDIT = {'op': 'pos', 'via': 'inplace', 'i': 3, 'd': [-2.0, 0.5, 3.0]}       # an atom moved out of the cell, in place
+
+
+# the cell moved rigidly by a non-lattice vector, atoms staying where they are (only the origin changes)
+_ENUM_SHIFT = {'op': 'box_set', 'via': 'vects', 'f': [1.0, 1.0, 1.0], 'd': [0.5, -0.25, 1.0], 'scale': False}
+
+
+def _enum_hists(pbc0, pbc1, hows, priors):
+    """[earlier call] + [what changes in between: nothing / an atom moved in place / the cell moved, each without and with a change
+    of the periodicity] + [earlier call]"""
+    out = []
+    for p1 in priors:
+        for p2 in priors:
+            for how in (hows if pbc1 != pbc0 else [None]):
+                for edit in (None, _ENUM_EDIT, _ENUM_SHIFT):
+                    h = [] if p1 is None else [dict(p1)]
+                    if how is not None:
+                        h.append({'op': 'pbc', 'how': how, 'to': list(pbc1)})
+                    if edit:
+                        h.append(dict(edit))
+                    if p2 is not None:
+                        h.append(dict(p2))
+                    out.append(h)
+    return out
+
+
+def wrap_enum(tier):
+    quick = tier == 'quick'
+    cases = []
+    for ci, c in enumerate(_ENUM_CELLS[:1] if quick else _ENUM_CELLS):
+        for k, pbc0 in enumerate(_PBCS[::2] if quick else _PBCS):
+            toggled = list(pbc0)
+            toggled[k % 3] = not toggled[k % 3]
+            for pbc1 in ([pbc0, toggled] if quick else _PBCS):
+                for hist in _enum_hists(pbc0, pbc1, ['elem'] if quick else ['elem', 'setter_list'], _ENUM_PRIORS_QUICK if quick else _ENUM_PRIORS):
+                    for ret in (True, False):
+                        cases.append({'cell': dict(c), 'pbc0': list(pbc0), 'pbc': list(pbc1), 'rel': _ENUM_REL, 'nprops': 2, 'ret': ret, 'symbols': False,
+                                      'hist': hist, 'forms': dict(_ENUM_FORMS), 'after': [{'op': 'again'}]})
+    return cases
+
+
+def normalize_enum(tier):
+    quick = tier == 'quick'
+    cases = []
+    full = [True, True, True]
+    for c in (_ENUM_CELLS[:1] if quick else _ENUM_CELLS):
+        for pbc0 in ((full, [True, False, True]) if quick else (full, [True, False, True], [False, False, False])):
+            for hist in _enum_hists(pbc0, full, ['elem'] if quick else ['elem', 'setter_list'], _ENUM_PRIORS_QUICK if quick else _ENUM_PRIORS):
+                for via in ('method', 'method_style', 'method_pos', 'function'):
+                    for ret in (True, False):
+                        cases.append({'cell': dict(c), 'rel': _ENUM_REL, 'nprops': 2, 'ret': ret, 'via': via, 'symbols': False,
+                                      'pbc0': list(pbc0), 'hist': hist, 'forms': dict(_ENUM_FORMS), 'after': [{'op': 'again'}]})
+    return cases
+
+
 CLAUSES = [
-    Clause('wrap', oracle_wrap, wrap_cases, quick=5500, thorough=150000,
+    Clause('wrap', oracle_wrap, wrap_cases, quick=4800, thorough=160000,
            min_share={'scaled': 0.22, 'scale_1': 0.23, 'scale_si': 0.08, 'scale_small': 0.12, 'scale_large': 0.09,
                       'nt': 0.35, 'lefthanded': 0.2, 'tilted': 0.3, 'mixed_pbc': 0.3, 'pbc3': 0.12, 'pbc0': 0.04, 'grew': 0.25,
                       'wrapped': 0.3, 'multi_image': 0.25, 'far': 0.04, 'props': 0.3, 'flags_returned': 0.35, 'onface': 0.4,
@@ -1353,16 +1973,26 @@ CLAUSES = [
                       'pos_list': 0.05, 'hist_rebuild': 0.05, 'hist_read': 0.06, 'hist_box_set': 0.025, 'hist_pos_edit': 0.03,
                       'prior_wrap': 0.03, 'prior_scaled_read': 0.07,
                       'sym': 0.16, 'sym_diag': 0.11, 'sym_perm': 0.05, 'lowertri_negdiag': 0.09, 'hist_box_reversed': 0.018,
-                      'pos_int': 0.08, 'pos_int_not64': 0.05, 'pos_int_narrow': 0.025, 'pos_int_unsigned': 0.02, 'pos_int_bool': 0.008},
+                      'pos_int': 0.08, 'pos_int_not64': 0.05, 'pos_int_narrow': 0.025, 'pos_int_unsigned': 0.02, 'pos_int_bool': 0.008,
+                      # generator classes carried over from other properties (result ledger, caller side, storage dtypes of the cell,
+                      # near-threshold values, many decades in one call): half of the smallest share seen at seeds 1-4
+                      'after': 0.173, 'ledger': 0.145, 'ledger_other': 0.079, 'ledger_same_n': 0.017, 'again': 0.069, 'caller_out': 0.036,
+                      'caller_in': 0.14, 'caller_in_before': 0.1, 'reuse': 0.032, 'near_face': 0.189, 'near_face_decided': 0.119,
+                      'near_face_1e-7': 0.085, 'near_cell': 0.11, 'tiny_tilt': 0.077, 'tiny_tilt_floored': 0.053, 'tiny_tilt_1e-9_1e-5': 0.024,
+                      'tiny_rot': 0.028, 'near_equal_len': 0.038, 'decades': 0.03, 'single_row': 0.046, 'box_dtype': 0.097, 'box_f32': 0.056,
+                      'box_f16': 0.013, 'box_int': 0.016, 'pbc_int8': 0.059},
            desc='wrap: moves = imageflags.vects on periodic axes only, periodic vectors unchanged, cell only grows, all atoms inside, properties untouched; after any history, every input form, every length unit'),
-    Clause('wrap_exact', oracle_wrap_exact, wrap_exact_cases, quick=2400, thorough=50000,
+    Clause('wrap_exact', oracle_wrap_exact, wrap_exact_cases, quick=2100, thorough=55000,
            min_share={'scaled': 0.22, 'scale_1': 0.23, 'scale_si': 0.08, 'scale_small': 0.12, 'scale_large': 0.09,
                       'exact': 0.5, 'nt': 0.35, 'onface': 0.4, 'far': 0.3, 'pbc3': 0.1, 'mixed_pbc': 0.3,
                       'sym': 0.15, 'sym_diag': 0.09, 'sym_perm': 0.06, 'lowertri_negdiag': 0.07,
                       'hist': 0.25, 'pbc_changed': 0.15, 'pbc_inplace': 0.08, 'inplace_toggled_out': 0.07, 'forms': 0.35,
-                      'pos_int': 0.08, 'pos_int_not64': 0.05, 'pos_int_narrow': 0.025, 'pos_int_unsigned': 0.02, 'pos_int_bool': 0.008, 'pos_float32': 0.02},
+                      'pos_int': 0.08, 'pos_int_not64': 0.05, 'pos_int_narrow': 0.025, 'pos_int_unsigned': 0.02, 'pos_int_bool': 0.008, 'pos_float32': 0.02,
+                      'after': 0.188, 'ledger': 0.154, 'ledger_other': 0.075, 'ledger_same_n': 0.015, 'again': 0.073, 'caller_out': 0.04,
+                      'caller_in': 0.125, 'caller_in_before': 0.1, 'reuse': 0.028, 'near_face': 0.05, 'near_face_decided': 0.041,
+                      'near_face_1e-7': 0.035, 'box_dtype': 0.097, 'box_f32': 0.064, 'box_f16': 0.014, 'box_int': 0.012, 'pbc_int8': 0.068},
            desc='wrap on exactly representable inputs (atoms exactly on faces, far outside): zero tolerance, zero band on periodic axes; after exactness-preserving histories'),
-    Clause('normalize', oracle_normalize, normalize_cases, quick=4000, thorough=100000,
+    Clause('normalize', oracle_normalize, normalize_cases, quick=3300, thorough=110000,
            min_share={'scaled': 0.22, 'scale_1': 0.23, 'scale_si': 0.07, 'scale_small': 0.12, 'scale_large': 0.09,
                       'nt': 0.35, 'lefthanded': 0.2, 'rotated': 0.2, 'tilted': 0.3, 'pairs': 0.35, 'transform_returned': 0.3,
                       'via_function': 0.12, 'far': 0.04, 'props': 0.3,
@@ -1370,7 +2000,20 @@ CLAUSES = [
                       'hist_box_set': 0.03, 'hist_pos_edit': 0.03, 'hist_rebuild': 0.05,
                       'sym': 0.16, 'sym_diag': 0.11, 'sym_perm': 0.05, 'lowertri_negdiag': 0.09, 'lammps_form_input': 0.2,
                       'hist_box_reversed': 0.02,
-                      'pos_int': 0.08, 'pos_int_not64': 0.05, 'pos_int_narrow': 0.025, 'pos_int_unsigned': 0.02, 'pos_int_bool': 0.008},
+                      'pos_int': 0.08, 'pos_int_not64': 0.05, 'pos_int_narrow': 0.025, 'pos_int_unsigned': 0.02, 'pos_int_bool': 0.008,
+                      'after': 0.177, 'ledger': 0.15, 'ledger_other': 0.07, 'ledger_same_n': 0.014, 'again': 0.073, 'caller_out': 0.03,
+                      'caller_in': 0.135, 'caller_in_before': 0.1, 'reuse': 0.035, 'near_face': 0.169, 'near_face_decided': 0.108,
+                      'near_face_1e-7': 0.076, 'near_cell': 0.101, 'tiny_tilt': 0.07, 'tiny_tilt_floored': 0.048, 'tiny_tilt_1e-9_1e-5': 0.024,
+                      'tiny_rot': 0.024, 'near_equal_len': 0.034, 'decades': 0.019, 'box_dtype': 0.098, 'box_f32': 0.055, 'box_f16': 0.017,
+                      'box_int': 0.014, 'pbc_int8': 0.054, 'via_style_given': 0.12, 'floor_active': 0.013},
            max_share={'illcond_skipped': 0.05},
            desc='normalize: input untouched, new right-handed LAMMPS cell with same lengths/angles/volume, proper rotation maps old vectors to new, atoms inside, nearest-image distances unchanged; after any history ending fully periodic, every input form, every length unit'),
+    Clause('wrap_enum', oracle_wrap, enumerate=wrap_enum,
+           min_share={'nt': 0.2, 'again': 0.5, 'ledger': 0.5, 'pbc_inplace': 0.25, 'inplace_toggled_out': 0.1, 'prior_wrap': 0.27, 'hist_read': 0.18, 'hist_pos_edit': 0.16, 'hist_box_set': 0.16,
+                      'hist_other_wrap': 0.15, 'flags_returned': 0.25, 'mixed_pbc': 0.37, 'pbc3': 0.06, 'grew': 0.19, 'wrapped': 0.2},
+           desc='wrap for every combination, in every order, of: periodicity at construction (8) / changed afterwards in place or by the setter, an earlier wrap (with / without flags) / normalize (method / function with transform) / wrap of another system before and after that change, return_imageflags; each followed by a repetition on a copy'),
+    Clause('normalize_enum', oracle_normalize, enumerate=normalize_enum,
+           min_share={'nt': 0.2, 'again': 0.5, 'ledger': 0.5, 'pbc_inplace': 0.3, 'inplace_toggled_out': 0.14, 'prior_wrap': 0.27, 'hist_read': 0.18, 'hist_pos_edit': 0.16, 'hist_box_set': 0.16,
+                      'hist_normalize_variant': 0.1, 'hist_other_wrap': 0.15, 'transform_returned': 0.25, 'via_style_given': 0.25, 'via_function': 0.12},
+           desc='normalize for every combination, in every order, of: how it is called (method, style given by keyword / positionally, function) x return_transform, periodicity at construction / made periodic afterwards, an earlier wrap / normalize / wrap of another system before and after that change; each followed by a repetition'),
 ]
